@@ -124,6 +124,8 @@ impl FlowSetBody {
                         nom::error::ErrorKind::Verify,
                     )));
                 }
+                // A template id has one meaning at a time: the latest definition wins.
+                parser.options_templates.remove(&template.template_id);
                 parser
                     .templates
                     .insert(template.template_id, template.clone());
@@ -137,6 +139,7 @@ impl FlowSetBody {
                         nom::error::ErrorKind::Verify,
                     )));
                 }
+                parser.templates.remove(&options_template.template_id);
                 parser
                     .options_templates
                     .insert(options_template.template_id, options_template.clone());
